@@ -894,6 +894,12 @@ Lemma noninherit_table_spec : forall a, noninherit_entry_ok a = true.
 Proof. apply forall_AId. vm_compute. reflexivity. Qed.
 Lemma initial_table_spec : forall a, initial_entry_ok a = true.
 Proof. apply forall_AId. vm_compute. reflexivity. Qed.
+Lemma style_only_table_spec : forall a, style_only_entry_ok a = true.
+Proof. apply forall_AId. vm_compute. reflexivity. Qed.
+Lemma style_only_spec a : is_style_only a = spec_style_only a.
+Proof. apply eqb_prop. apply style_only_table_spec. Qed.
+Lemma css_only_spec : css_only_ok = true.
+Proof. vm_compute. reflexivity. Qed.
 Lemma noninherit_spec a :
   is_presentation a = true -> allows_inherit_value a = true -> is_non_inheritable a = spec_noninherited a.
 Proof.
